@@ -1179,13 +1179,17 @@ where
         }
         let mut safe = self.safe.write().await;
         if let None = safe.active_blob {
-            let blob_opt = safe.blobs.write().await.pop();
-            if let Some(mut blob) = blob_opt {
-                // Active blob must have in-memory index (closed blob's index may be already dumped)
-                if let Err(e) = blob.load_index().await {
-                    safe.blobs.write().await.push(blob).await;
-                    return Err(e);
+            let blobs = safe.blobs.clone();
+            let mut blobs = blobs.write().await;
+            // Active blob must have in-memory index (closed blob's index may be already dumped).
+            // Load it while the blob is still in the list: the blob must not be lost if loading fails
+            // or if this future is dropped at the await point
+            if let Some(last_id) = blobs.last_id() {
+                if let Some(last) = blobs.get_child_mut(last_id) {
+                    last.data.load_index().await?;
                 }
+            }
+            if let Some(blob) = blobs.pop() {
                 safe.active_blob = Some(Box::new(ASRwLock::new(blob)));
                 Ok(())
             } else {
